@@ -30,6 +30,20 @@ def pivot():
     S.append(EnumSpec("DefT", [
         U("A", serialize=["a"]), U("Other", fields=[Field("String")], default=True), U("B"),
     ], derives=d, note="(d) default variant, tuple form, declared in the middle"))
+    S.append(EnumSpec("DisAttr", [
+        U("A"), U("H1", disabled=True, serialize=["h1", "hh"], flags_last=True), U("B", serialize=["b"]),
+        U("H2", disabled=True, attr_style="trailing"), U("H3", disabled=True, to_string="h3", attr_style="split"), U("C"),
+    ], derives=d, note="`disabled` after key = value items in the same attribute, with a trailing comma, split over attributes"))
+    S.append(EnumSpec("DisDef", [
+        U("A"), U("Unknown", fields=[Field("String")], default=True, disabled=True), U("B", serialize=["b"]),
+    ], derives=d, note="a variant that is BOTH disabled and default: it must never be produced, unmatched input is an error"))
+    S.append(EnumSpec("CaseOnly", [
+        U("Mb", serialize=["mb"], to_string="MB"), U("Kb", serialize=["kb", "Kb"]), U("Gb", to_string="gB", serialize=["GB", "gb"]),
+    ], derives=d, note="spellings of ONE variant that differ only in letter case (case-sensitive enum): each is a spelling"))
+    S.append(EnumSpec("Esc", [
+        U("Tab", serialize=["\t\t", "tab"]), U("Quote", to_string="a\"b"), U("Braces", to_string="${{name}}", fields=[Field("u8", name="id")], named=True),
+        U("Bs", serialize=["back\\slash", "{{x}}"], fields=[Field("u8")]),
+    ], derives=d, note="spellings that need escaping in Rust source, doubled braces on field-carrying variants"))
     S.append(EnumSpec("DefN", [
         U("On"), U("Off", aci=True), U("Rest", fields=[Field("Box<str>", name="o")], named=True, default=True),
     ], derives=d, note="(d) default variant, single named field, Box<str>"))
@@ -78,10 +92,12 @@ def random_specs(rng, n):
         for i, ident in enumerate(ids):
             v = Variant(ident=ident)
             r = rng.random()
-            if r < 0.25:
-                v.serialize = ["s%d%s" % (i, "x" * rng.randint(0, 3)), "S%d_%d" % (k, i)][: rng.randint(1, 2)]
-            elif r < 0.4:
-                v.to_string = "t%d-%s" % (i, ident[:2])
+            if r < 0.3:
+                v.serialize = [rand_lit(rng, "s%d" % i), rand_lit(rng, "S%d_%d" % (k, i))][: rng.randint(1, 2)]
+                if rng.random() < 0.3:
+                    v.serialize.append(v.serialize[0].swapcase())      # a case-only twin of the same variant
+            elif r < 0.45:
+                v.to_string = rand_lit(rng, "t%d" % i)
             if rng.random() < 0.2:
                 v.disabled = True
             if rng.random() < 0.3:
@@ -92,7 +108,7 @@ def random_specs(rng, n):
             elif kind < 0.4:
                 v.fields = [Field(rng.choice(["u8", "u16", "bool"]), name="f%d" % j) for j in range(rng.randint(1, 2))]
                 v.named = True
-            if not has_default and not v.disabled and rng.random() < 0.15:
+            if not has_default and rng.random() < 0.15:          # may coincide with `disabled`
                 v.default = True
                 v.fields = [Field("String")]
                 v.named = False
